@@ -102,7 +102,9 @@ def gen_workload(tape, *, max_funcs=5, max_size=3, allow_gen=True, allow_tuple=T
         fd = {"name": f"f{k}", "params": list(params), "mapspec": None, "out_shape": None,
               "defaults": {}, "bound": {}, "sig_defaults": {}}
         n_out = 2 if allow_tuple and tape.coin(0.2, "tuple-out") else 1
-        outs = [f"o{k}"] if n_out == 1 else [f"o{k}a", f"o{k}b"]
+        if n_out == 2 and tape.coin(0.25, "three-outputs"):
+            n_out = 3
+        outs = [f"o{k}"] if n_out == 1 else [f"o{k}{c}" for c in "abc"[:n_out]]
         fd["outputs"] = outs
         if n_out == 1 and kind != "gen" and tape.coin(0.12, "returns-none"):
             fd["none_mod"] = 2 + tape.choose(2, "none-mod")
@@ -112,7 +114,7 @@ def gen_workload(tape, *, max_funcs=5, max_size=3, allow_gen=True, allow_tuple=T
             cand = [p_ for p_ in fd["params"] if p_ not in fd["sig_defaults"]]
             if cand:
                 fd["renamed"] = [tape.pick(cand, "renamed-param")]  # the function's own name differs (PipeFunc renames)
-        if n_out == 2 and tape.coin(0.3, "dict-out"):
+        if n_out >= 2 and tape.coin(0.3, "dict-out"):
             fd["dict_out"] = True  # returns {name: value}, picked by a custom output_picker
         if tape.coin(0.08, "debug-flag"):
             fd["debug"] = True
@@ -123,6 +125,8 @@ def gen_workload(tape, *, max_funcs=5, max_size=3, allow_gen=True, allow_tuple=T
         if tape.coin(0.06, "resources-variable"):
             fd["resources_var"] = True  # the function receives its Resources through an extra argument `res`
             fd["params"].append("res")
+        if tape.coin(0.1, "scribbles"):
+            fd["scribbles"] = True  # the function overwrites, in place, the arrays pipefunc computed and handed to it
         if n_out == 1 and kind != "gen" and tape.coin(0.1, "sequence-valued"):
             fd["seq_out"] = True  # each element / the single result is a 2-tuple
         elif n_out == 1 and kind != "gen" and tape.coin(0.1, "result-like"):
@@ -362,6 +366,9 @@ def build_pipeline(w, *, cached=(), tags=None, **pipeline_kwargs):
     from pipefunc import PipeFunc, Pipeline
 
     pfs = []
+    # outputs that live in a storage array assembled anew (to_array) for every consumer call: mapped over some input
+    fresh_arrays = {o for fd in w["functions"] for o in fd["outputs"]
+                    if fd.get("mapspec") and not fd["mapspec"].strip().startswith("...")}
     for fd in w["functions"]:
         inner = {p_: "in_" + p_.replace(".", "_") for p_ in fd.get("renamed", [])}
         fn = Fn(fd["name"], [inner.get(p_, p_) for p_ in fd["params"]], defaults=fd.get("sig_defaults") or None,
@@ -371,7 +378,11 @@ def build_pipeline(w, *, cached=(), tags=None, **pipeline_kwargs):
                 outer={v: k for k, v in inner.items()}, dict_out=fd["outputs"] if fd.get("dict_out") else None,
                 result_like=bool(fd.get("result_like")) and not fd.get("out_shape") and not fd.get("none_mod"),
                 public_name=fd.get("public_name"),
-                data_like=fd.get("data_like") if not fd.get("out_shape") and not fd.get("none_mod") else False)
+                data_like=fd.get("data_like") if not fd.get("out_shape") and not fd.get("none_mod") else False,
+                # (only arrays the function receives whole - each call's own fresh copy -, never elements or slices, which
+                # in-memory storages hand out as views)
+                scribbles=[inner.get(p_, p_) for p_ in fd["params"] if p_ in fresh_arrays and fd.get("mapspec")
+                           and f"{p_}[" not in fd["mapspec"].split("->")[0]] if fd.get("scribbles") else ())
         if fd.get("closure"):
             from .userfuncs import as_closure
 
@@ -434,6 +445,7 @@ def describe(w):
              **({"profile": True} if fd.get("profile") else {}),
              **({"closure": True} if fd.get("closure") else {}),
              **({"resources_var": True} if fd.get("resources_var") else {}),
+             **({"scribbles": True} if fd.get("scribbles") else {}),
              **({"public_name": fd["public_name"]} if fd.get("public_name") else {}),
              **({"result_like": True} if fd.get("result_like") else {}),
              **({"data_like": fd["data_like"]} if fd.get("data_like") else {}),
